@@ -15,6 +15,7 @@
 //!
 //! Both libraries re-exec `current_exe()` for their workers (`VERIF_C02_WORKER` / `VERIF_WORKER`), so
 //! `main` dispatches on both before anything else.
+mod deep;
 use c01::engine::{engine_body, fn_of, install_fn_hook, site_of, worker_main, EngineConfig, Mode};
 use c02::{CaseOut, Outcome, Phase, SupOpts};
 use serde_json::{json, Value};
@@ -31,7 +32,7 @@ fn cfg() -> EngineConfig {
 fn c02_case(spec: &Value) -> CaseOut {
     static HOOK: std::sync::Once = std::sync::Once::new();
     HOOK.call_once(install_fn_hook);
-    let mut out = c02::run_case(spec);
+    let mut out = if spec["driver"] == "c20deep" { deep::drive(spec) } else { c02::run_case(spec) };
     for v in out.viols.iter_mut() {
         if v.kind == "panic" {
             let f = fn_of(&v.panic_info());
@@ -109,6 +110,8 @@ struct Stage2 {
     ignored_panics: u64,
     ignored_failures: u64,
     arith: u64,
+    /// informational: every distinct (file:line, message) of an arithmetic panic seen in stage 2
+    sites: BTreeMap<String, u64>,
 }
 
 /// Run cases lo..hi of a phase under c02's supervisor and classify the results.
@@ -138,12 +141,22 @@ fn run_cases(run: &Run, label: &str, lo: u64, hi: u64, get: &(dyn Fn(u64) -> Val
                         let p = v.panic_info();
                         if v.kind == "panic" && p.is_arith_or_debug_assert() {
                             g.arith += 1;
+                            *g.sites.entry(format!("{}:{} {}", site(&p), p.line, p.message)).or_insert(0) += 1;
                             let (f, what) = match v.what.strip_prefix("fn=").and_then(|r| r.split_once(";; ")) {
                                 Some((f, w)) => (f.to_string(), w.to_string()),
                                 None => (String::new(), v.what.clone()),
                             };
                             let id = format!("overflow {} fn={}: {}", site(&p), f, p.kind());
-                            let narrowed = c02::narrow(&case, v.sub);
+                            let narrowed = if case["driver"] == "c20deep" {
+                                let mut c = case.clone();
+                                if c["only"].is_null() {
+                                    c["only"] = json!(v.sub);
+                                }
+                                c["described"] = json!(deep::describe(&c));
+                                c
+                            } else {
+                                c02::narrow(&case, v.sub)
+                            };
                             drop(g);
                             run.violation(
                                 &id,
@@ -165,7 +178,18 @@ fn run_cases(run: &Run, label: &str, lo: u64, hi: u64, get: &(dyn Fn(u64) -> Val
                 }
             }
         },
-        &|_, case_json, f| c02::resume_batch(case_json, f),
+        &|_, case_json, f| {
+            let c: Value = serde_json::from_str(case_json).ok()?;
+            if c["driver"] == "c20deep" {
+                if !c["only"].is_null() {
+                    return None;
+                }
+                let mut c = c;
+                c["from"] = json!(f.sub + 1);
+                return Some(c.to_string());
+            }
+            c02::resume_batch(case_json, f)
+        },
     );
     *st = agg.into_inner().unwrap();
     if let Err(e) = res {
@@ -195,6 +219,25 @@ fn stage2(run: &Run, quick: bool) {
         p.bounds = vec![("corpus.plan".into(), c02::skdrv::Plan::named("strict").map(|p| p.describe()).unwrap_or(Value::Null))];
         p.get = Box::new(move |i| cases[i as usize].clone());
     }
+    // the C20-only deepening families (see deep.rs)
+    {
+        let cases = deep::cases(quick);
+        let sample = cases.get(2).cloned().unwrap_or(Value::Null);
+        phases.push(Phase {
+            label: "c20deep",
+            n: cases.len() as u64,
+            chunk: 2,
+            bounds: vec![(
+                "c20deep".into(),
+                json!({"tt": {"slots": if quick { json!(["glyph"]) } else { json!(["fpgm", "prep", "glyph"]) },
+                    "extremes": if quick { deep::EXTREMES[..4].to_vec() } else { deep::EXTREMES.to_vec() }, "small": deep::SMALL, "setups": deep::SETUP_NAMES,
+                    "opcodes_per_batch": 256, "maxp": "stack 64, storage 16, functions 16, twilight 16"},
+                    "glyf_end_points": deep::END_POINTS, "cff_units_per_em": deep::UPEMS, "plan_for_glyf_and_cff": "strict"}),
+            )],
+            sample,
+            get: Box::new(move |i| cases[i as usize].clone()),
+        });
+    }
     let opts = SupOpts {
         workers: std::env::var("VERIF_THREADS").ok().and_then(|s| s.parse().ok()).unwrap_or(16),
         watchdog_ms: if quick { 4_000 } else { 10_000 },
@@ -208,7 +251,7 @@ fn stage2(run: &Run, quick: bool) {
     let only: Option<Vec<String>> = std::env::var("C02_ONLY").ok().map(|s| s.split(',').map(|x| x.to_string()).collect());
     let mut st = Stage2::default();
     // order: cheap, finding-rich phases first
-    let order = ["corpus", "cffprog", "cff2prog", "glyfgraph", "capfam", "colrgrad", "colridx", "ift", "deviations", "ttprog", "klippa"];
+    let order = ["corpus", "cffprog", "cff2prog", "glyfgraph", "capfam", "colrgrad", "colridx", "c20deep", "ift", "deviations", "ttprog", "klippa"];
     phases.sort_by_key(|p| order.iter().position(|o| *o == p.label).unwrap_or(99));
     for ph in &phases {
         if let Some(o) = &only {
@@ -248,6 +291,7 @@ fn stage2(run: &Run, quick: bool) {
         run.count(k, *n);
     }
     run.count("c02.arithmetic_panics", st.arith);
+    run.extra("c02.arithmetic_panic_sites", json!(st.sites));
     run.count("c02.non_arithmetic_panics_ignored", st.ignored_panics);
     run.count("c02.worker_failures_ignored", st.ignored_failures);
 }
